@@ -126,3 +126,10 @@ package direct
 //@   requires targetAddrOnly ==> targetAddr.IsIP()
 //@   modifies nothing
 //@   ensures fresh(result) && fresh(result.p) && result.p.targetAddr == targetAddr && result.p.targetAddrOnly == targetAddrOnly
+
+// ---------------- session ownership (property C11): a client packer has per-session mutable state (the
+// domain-resolution cache that PackInPlace above modifies), and every session relays on its own goroutine.
+// A session must therefore get a packer object no other session holds.
+//@ func (*DirectUDPClient).NewSession
+//@   requires !isnil(c)
+//@   ensures isnil(result2) && dyntype(result1.Packer, *DirectPacketClientPacker) ==> fresh(unbox(result1.Packer, *DirectPacketClientPacker))
